@@ -236,6 +236,20 @@ theorem unknown_or_helper_refused (ti : TypeInfo) (fns : Functions) (name : Iden
     getFunction (gate ti) fns name f = .doesNotExist := by
   rcases hl with hl | hl <;> simp [getFunction, hl]
 
+/-- `Module::get_function` as the source has it today consists of exactly the
+    eight gate steps of the model, each an unconditional top-level statement,
+    in the model's order (translator: anything nested, conditional, missing,
+    repeated or out of order is an extraction failure), and `func!` implements
+    `RotoFunc` — with the arity test and the per-argument loop of `checkArgs` —
+    for the arities 0 to 7 and no others. -/
+theorem get_function_shape :
+    Gen.Gate.getFunctionSteps =
+      ["prefix", "lookup", "bind", "requireSignature", "checkArgs", "checkReturn", "funcPtr", "finish"] ∧
+    Gen.Gate.funcArities = [0, 1, 2, 3, 4, 5, 6, 7] :=
+  ⟨rfl, rfl⟩
+
+example : Gen.Gate.getFunctionSteps.length = 8 := rfl
+
 /-- a key that does not start with `pkg.` (`::generated::clone_7`) is not
     reachable by any requested name -/
 theorem generated_key_unreachable (key name : Ident) (h : ¬ pkgPrefix <+: key) :
